@@ -1,4 +1,5 @@
 import Csproto.Props.C06
+import Csproto.Bridge.Templates
 /- axiom audit for C06 -/
 #print axioms Csproto.C06.dst_independent
 #print axioms Csproto.C06.repeated_accepts_unpacked
@@ -6,6 +7,14 @@ import Csproto.Props.C06
 #print axioms Csproto.C06.packable_kinds
 #print axioms Csproto.C06.order_independent_step
 #print axioms Csproto.C06.last_wins_witness
+#print axioms Csproto.C06.unmarshal_is_reference_fold
+#print axioms Csproto.C06.loop_is_reference_fold
+#print axioms Csproto.C06.mode_independent
+#print axioms Csproto.C06.roundtrip
 #print axioms Csproto.Bridge.Templates.unmarshal_dispatch_total
 #print axioms Csproto.Bridge.Templates.number_arms_total
 #print axioms Csproto.Bridge.Templates.unmarshal_resets_first
+#print axioms Csproto.Gen.loop_records
+#print axioms Csproto.Gen.loop_step
+#print axioms Csproto.Gen.unmarshal_records
+#print axioms Csproto.Gen.roundtrip_flat
